@@ -25,5 +25,6 @@ package port
 //@       itemOk(item(str, i)) && ranges[i].Begin == itemBegin(item(str, i)) && ranges[i].End == itemEnd(item(str, i))
 //@   ensures len(strings.trimmed(str)) != 0 && (forall i int :: 0 <= i && i < strings.splitLen(str, ",") ==> itemOk(item(str, i))) ==> err == nil
 //@   loop 1 invariant #i >= -1 && #i < len(split) && len(r) == #i + 1 && err == nil
+//@   loop 1 invariant fresh(r)
 //@   loop 1 invariant forall j int :: 0 <= j && j <= #i ==>
 //@       itemOk(item(str, j)) && r[j].Begin == itemBegin(item(str, j)) && r[j].End == itemEnd(item(str, j))
